@@ -662,6 +662,7 @@ func fatal(a ...any) {
 }
 
 func TestCheck(t *testing.T) {
+	vk.UseT(t)
 	r := vk.Start("C06", "model_checking", 170*time.Second, 24*time.Minute)
 	defer vk.CleanScratch()
 	debug.SetGCPercent(800) // thousands of short-lived replicas: trade memory for collector time
